@@ -68,6 +68,44 @@ fn main() {
 '''
 
 
+FUZZ = r'''
+// native random search: vp_fuzz <harness> <seed> <iterations>; runs the SAME harness function on pseudo-random byte vectors
+// (biased towards small values and boundary patterns); assumption failures are skipped; a panic is a failing input.
+#[cfg(kani)]
+fn main() {}
+#[cfg(not(kani))]
+fn main() {
+    let a: Vec<String> = std::env::args().collect();
+    let f = match CRATE::vp_harness(&a[1]) { Some(f) => f, None => { println!("FUZZ unknown-harness"); std::process::exit(3) } };
+    let mut s: u64 = a.get(2).and_then(|x| x.parse().ok()).unwrap_or(1u64).wrapping_mul(0x9E3779B97F4A7C15) | 1;
+    let iters: u64 = a.get(3).and_then(|x| x.parse().ok()).unwrap_or(200000);
+    let mut next = move || { s ^= s << 13; s ^= s >> 7; s ^= s << 17; s };
+    std::panic::set_hook(Box::new(|_| {}));
+    let mut tried = 0u64;
+    for _ in 0..iters {
+        let mut vals: Vec<Vec<u8>> = Vec::new();
+        for _ in 0..48 {
+            let r = next();
+            let v: u64 = match r % 8 { 0 => 0, 1 => 1, 2 => u64::MAX, 3 => 1u64 << (next() % 64), 4 => (1u64 << (next() % 64)).wrapping_sub(1), 5 => next() % 70, 6 => next() % 4, _ => next() };
+            vals.push(v.to_le_bytes().to_vec());
+        }
+        CRATE::kani::load(vals.clone());
+        match std::panic::catch_unwind(f) {
+            Ok(()) => { tried += 1; }
+            Err(e) => {
+                if e.downcast_ref::<CRATE::kani::Rejected>().is_some() { continue; }
+                let msg = e.downcast_ref::<String>().cloned().or_else(|| e.downcast_ref::<&str>().map(|s| s.to_string())).unwrap_or_default();
+                let hex: Vec<String> = vals.iter().map(|v| v.iter().map(|b| format!("{:02x}", b)).collect::<String>()).collect();
+                println!("FUZZ found {} {}", hex.join(","), msg.replace('\n', " "));
+                std::process::exit(1)
+            }
+        }
+    }
+    println!("FUZZ none {}", tried);
+}
+'''
+
+
 class Harness:
     def __init__(self, name, kind="proof", bound=None, note="", expect="success", fn=None, unwind=None):
         """kind: 'contract' (proof_for_contract), 'proof' (complete: loop-free or constant-bound loops
@@ -96,6 +134,7 @@ def write_crate(crate_dir, name, lib_rs, deps, harness_names, repo, extra_files=
     lib_rs = re.sub(r"(?m)^(\s*(?:pub(?:\([a-z]+\))? )?mod (?!kani\b)\w+ \{[ \t]*)$", r"\1\n#[cfg(not(kani))] #[allow(unused_imports)] use crate::kani;", lib_rs)
     open(os.path.join(crate_dir, "src", "lib.rs"), "w").write(lib_rs + "\n" + table)
     open(os.path.join(crate_dir, "src", "bin", "vp_replay.rs"), "w").write(MAIN.replace("CRATE", name))
+    open(os.path.join(crate_dir, "src", "bin", "vp_fuzz.rs"), "w").write(FUZZ.replace("CRATE", name))
     for rel, text in (extra_files or {}).items():
         p = os.path.join(crate_dir, rel)
         os.makedirs(os.path.dirname(p), exist_ok=True)
@@ -202,3 +241,21 @@ def native_replay(crate_dir, harness, vals, timeout=900):
     st = line[-1].split(" ", 2) if line else ["REPLAY", "build-error", ""]
     return {"status": st[1], "msg": st[2] if len(st) > 2 else "", "cmd": "cd %s && %s" % (crate_dir, " ".join(cmd)),
             "out": (p.stdout + p.stderr)[-3000:]}
+
+
+def native_fuzz(crate_dir, harness, seed=1, iters=300000, timeout=420):
+    """no CBMC counterexample available: run the same harness natively on pseudo-random inputs until it panics"""
+    env = dict(os.environ, CARGO_NET_OFFLINE="true")
+    cmd = ["cargo", "run", "--offline", "-q", "--release", "--bin", "vp_fuzz", "--", harness.split("::")[-1], str(seed), str(iters)]
+    try:
+        p = subprocess.run(cmd, cwd=crate_dir, capture_output=True, text=True, timeout=timeout, env=env)
+    except subprocess.TimeoutExpired:
+        return {"status": "timeout", "cmd": " ".join(cmd)}
+    line = [l for l in p.stdout.splitlines() if l.startswith("FUZZ ")]
+    if not line:
+        return {"status": "build-error", "out": (p.stdout + p.stderr)[-1500:]}
+    parts = line[-1].split(" ", 3)
+    if parts[1] == "found":
+        vals = [[int(h[i:i + 2], 16) for i in range(0, len(h), 2)] for h in parts[2].split(",")]
+        return {"status": "found", "vals": vals, "msg": parts[3] if len(parts) > 3 else "", "cmd": "cd %s && %s" % (crate_dir, " ".join(cmd))}
+    return {"status": "none", "tried": parts[2] if len(parts) > 2 else "?"}
